@@ -88,6 +88,8 @@ pub enum RecvMode {
     Polling,
     Set,
     Delayed,
+    /// try_recv_timeout in a loop (the timer is an explicit scheduling alternative)
+    TimedPolling,
 }
 
 #[derive(Clone, Debug, Serialize, Deserialize)]
@@ -203,6 +205,17 @@ fn body(p: &P) -> Result<(), String> {
                 return Err(format!("more messages delivered ({}) than sent ({})", got.len(), total));
             }
         },
+        RecvMode::TimedPolling => loop {
+            match rx.try_recv_timeout(std::time::Duration::from_millis(15)) {
+                Ok(v) => got.push(validate(&v)?),
+                Err(TryRecvError::Empty) => sched::vyield(),
+                Err(TryRecvError::IpcError(IpcError::Disconnected)) => break,
+                Err(e) => return Err(format!("try_recv_timeout failed: {:?}", e)),
+            }
+            if got.len() > total {
+                return Err(format!("more messages delivered ({}) than sent ({})", got.len(), total));
+            }
+        },
         RecvMode::Set => {
             let mut set = IpcReceiverSet::new().map_err(|e| e.to_string())?;
             let id = set.add(rx).map_err(|e| e.to_string())?;
@@ -274,6 +287,7 @@ pub fn scenario_params(tier: Tier) -> Vec<(P, u32)> {
                 add(P { seqs: m.clone(), transferred: (i + j) % 2 == 1, mode: *mode }, 2);
             }
         }
+        add(P { seqs: vec![vec![L2, S], vec![L3]], transferred: false, mode: TimedPolling }, 2);
         add(P { seqs: vec![vec![L2], vec![L2], vec![S, S]], transferred: false, mode: Blocking }, 1);
         add(P { seqs: vec![vec![L3], vec![S], vec![L2]], transferred: true, mode: Set }, 1);
     } else {
@@ -288,6 +302,9 @@ pub fn scenario_params(tier: Tier) -> Vec<(P, u32)> {
                     add(P { seqs: vec![a.clone(), b.clone()], transferred: (i + j + k) % 2 == 0, mode: *mode }, 2);
                 }
             }
+        }
+        for (i, a) in seq2.iter().enumerate() {
+            add(P { seqs: vec![a.clone(), seq2[(i * 7 + 3) % seq2.len()].clone()], transferred: i % 2 == 0, mode: TimedPolling }, 2);
         }
         for mode in modes {
             add(P { seqs: vec![vec![L2, S], vec![L3, S]], transferred: false, mode }, 3);
